@@ -43,12 +43,10 @@ impl<T> Definitions<T> {
 
     /// Retrieve a definition, if it exists; fail if not resolved
     pub fn lookup(&self, reference: &Reference) -> Option<&T> {
-        self.inner
-            .get(&reference.as_key())
-            .map(|v| v
-              .as_ref()
-              .expect("All registered definitions are 'Some'. 'None' state is only transient during registration")
-            )
+        // All registered definitions are 'Some': the 'None' state is only transient during
+        // registration. A blueprint read from disk may still carry a `null` definition; it
+        // is as good as a missing one.
+        self.inner.get(&reference.as_key()).and_then(|v| v.as_ref())
     }
 
     /// Retrieve a definition, if it exists and is resolved.
